@@ -1,5 +1,6 @@
 (* C13 — each tolerance switch relaxes only its own check; relaxing never loses tags.  Statements only. *)
-From Ebml Require Import Base Tools Spec Reader Pure Proofs.Tactics Proofs.ReaderIO Proofs.Refine Proofs.CapBound Proofs.PureProofs.
+From Ebml Require Import Base Tools Spec Reader Pure Proofs.Tactics Proofs.ReaderIO Proofs.Refine Proofs.CapBound Proofs.PureProofs
+  Proofs.ErrKinds Proofs.RoundTrip Proofs.Monotone.
 
 (* Tolerating a class makes that error kind impossible, and in strict mode no successful item is (or contains) a raw tag: for
    every configuration, every input and every sequence of next()/try_recover() calls, every result of the abstract reader's
@@ -23,8 +24,52 @@ Theorem C13_limit_always : forall c st id ty n hl m,
   snd (peek_header c st) = Ok (id, ty, SKnown n, hl) -> c_max c = Some m -> n <= m.
 Proof. exact peek_header_size_ok. Qed.
 
-(* PARTIAL: "the strict items are a prefix of every more tolerant parse" (monotonicity) is not proved; it is covered by the
-   correspondence groups over all 8 tolerance subsets. *)
+(* Monotonicity (Proofs/Monotone.v): "for inputs that start at a root element, the successful items of the strict parse are
+   always a prefix of those of any more tolerant parse of the same bytes".
+   - [strict cs]: all three switches off; [same_but_tolerances cs ct]: ct has the same specification, size limit, buffered
+     masters and end-of-input behaviour as cs, and any setting of the three switches;
+   - [starts_at_root cs input]: if the input begins with an element id at all, that id is declared with the empty path (so
+     the strict reader's seeding of implied ancestors adds nothing; a first element that is a global element or an element
+     from inside a document is excluded - there the strict reader opens, and later closes, implied masters that a reader
+     tolerating hierarchy problems never opens);
+   - [items_before_error outs]: the items (tag AND offset) of a run up to its first outcome that is not an item;
+   - the run is a full drain ([RAll]) of the abstract reader. *)
+Theorem C13_strict_is_prefix : forall cs ct input, strict cs -> same_but_tolerances cs ct -> starts_at_root cs input -> wf_bytes input ->
+  exists rest, items_before_error (p_run ct input [RAll]) = items_before_error (p_run cs input [RAll]) ++ rest.
+Proof. exact strict_is_prefix. Qed.
+
+(* without buffered masters the input need not consist of bytes *)
+Theorem C13_strict_is_prefix_unbuffered : forall cs ct input, strict cs -> same_but_tolerances cs ct -> starts_at_root cs input ->
+  c_buffered cs = [] ->
+  exists rest, items_before_error (p_run ct input [RAll]) = items_before_error (p_run cs input [RAll]) ++ rest.
+Proof. exact strict_is_prefix_unbuffered. Qed.
+
+(* ... and for the buffered machine under every chunking and capacity *)
+Theorem C13_strict_is_prefix_buffered : forall cs ct input cap1 cap2 s1 s2, calm s1 -> calm s2 ->
+  strict cs -> same_but_tolerances cs ct -> starts_at_root cs input -> wf_bytes input ->
+  exists rest, items_before_error (run_reader ct cap2 s2 input [RAll]) = items_before_error (run_reader cs cap1 s1 input [RAll]) ++ rest.
+Proof. intros cs ct input cap1 cap2 s1 s2 H1 H2. rewrite !buffered_refines_pure by assumption. apply strict_is_prefix. Qed.
+
+(* PARTIAL only in this: with buffered masters the monotonicity theorem assumes [wf_bytes input] (every element of the input
+   list is below 256).  The model's inputs are lists of N; on a non-byte the size decoder reaches its overflow panic, and a
+   tolerant reader that got past the strict reader's fault INSIDE a buffered master can hit it while Ends that the strict
+   reader still delivers are queued in front of the buffered master ([C13_nonbyte_ex] below).  Real inputs are bytes. *)
+
+(* the specific error kind, at the offending element's offset: every error of a header check carries the cursor offset, and
+   its kind is that of the first failing check — id bytes incomplete / size field incomplete (UnexpectedEof), malformed size or
+   numeric size above 8 (InvalidTagData), id unknown to the specification (InvalidTagId, only when not tolerated), remaining
+   chain does not match the declared path (HierarchyError, only when not tolerated), the element would overrun an enclosing
+   known-size master (OversizedChildElement, only when not tolerated), declared size above the configured limit (InvalidTagSize) *)
+Theorem C13_header_error_kinds : forall c st st' e, p_header c st = (st', Err e) ->
+  (exists oid, e = REof (b_off st) oid None None) \/
+  exists id idl, p_tag_id st = Ok (id, idl) /\
+    (e = RInvalidTagData (b_off st) id \/
+     (e = RInvalidTagId (b_off st) id /\ get_type (c_sp c) id = None /\ c_allow_id c = false) \/
+     (e = RHierarchy id (match b_stack st' with f :: _ => Some (f_id f) | [] => None end) /\ c_allow_hier c = false /\
+      get_type (c_sp c) id <> None /\ validate_tag_path (c_sp c) id (stack_view (b_stack st')) = false) \/
+     (exists n hl, e = ROversized (b_off st) id n /\ c_allow_over c = false /\ p_invalid_tag_size st' (N.of_nat hl + n) = true) \/
+     (exists n m, e = RInvalidSize (b_off st) id n /\ c_max c = Some m /\ m < n)).
+Proof. exact header_error_kinds. Qed.
 
 Example C13_ex :
   let sp := [ {| e_id := 129; e_ty := DMaster; e_path := [] |}; {| e_id := 16641; e_ty := DUInt; e_path := [PId 129] |} ] in
@@ -33,4 +78,83 @@ Example C13_ex :
   p_run (mk false) [129; 135; 153; 129; 7; 65; 1; 129; 5] [RAll] = [OItem (TStart 129) 0; OErr (RInvalidTagId 2 153)] /\
   p_run (mk true) [129; 135; 153; 129; 7; 65; 1; 129; 5] [RAll] =
     [OItem (TStart 129) 0; OItem (TElem 153 (VRaw [7])) 2; OItem (TElem 16641 (VU 5)) 5; OItem (TEnd 129) 0; ONone].
+Proof. vm_compute. split; reflexivity. Qed.
+
+(* Root { UInt 5; f1; f2; f3; UInt 6 } where the three faults, in some order, are
+     U = an element with the unknown id 0x99,
+     M = a Bin (declared inside Root/Parent) directly inside Root: misplaced,
+     O = a Parent declared 3 bytes long whose child Bin needs 5: oversized child. *)
+Definition C13_sp : spec :=
+  [ {| e_id := 129; e_ty := DMaster; e_path := [] |}; {| e_id := 16643; e_ty := DMaster; e_path := [PId 129] |};
+    {| e_id := 16642; e_ty := DBinary; e_path := [PId 129; PId 16643] |}; {| e_id := 16641; e_ty := DUInt; e_path := [PId 129] |} ].
+Definition C13_cfg (a h o : bool) : cfg :=
+  {| c_sp := C13_sp; c_allow_id := a; c_allow_hier := h; c_allow_over := o; c_max := Some 4000000000; c_buffered := []; c_emit_eof := true |}.
+Definition C13_U : list N := [153; 129; 7].
+Definition C13_M : list N := [65; 2; 129; 9].
+Definition C13_O : list N := [65; 3; 131; 65; 2; 130; 1; 2].
+Definition C13_doc (f1 f2 f3 : list N) : list N := [129; 151; 65; 1; 129; 5] ++ f1 ++ f2 ++ f3 ++ [65; 1; 129; 6].
+
+(* faults in the order U, M, O: the strict run stops at the first fault; tolerating unknown ids gets past U and stops at M;
+   tolerating only hierarchy problems or only oversized children changes nothing (the first fault is not theirs); with two
+   switches the run stops at O, with all three it is complete.  Every run extends the strict one. *)
+Example C13_faults_ex :
+  p_run (C13_cfg false false false) (C13_doc C13_U C13_M C13_O) [RAll] =
+    [OItem (TStart 129) 0; OItem (TElem 16641 (VU 5)) 2; OErr (RInvalidTagId 6 153)] /\
+  p_run (C13_cfg true false false) (C13_doc C13_U C13_M C13_O) [RAll] =
+    [OItem (TStart 129) 0; OItem (TElem 16641 (VU 5)) 2; OItem (TElem 153 (VRaw [7])) 6; OErr (RHierarchy 16642 (Some 129))] /\
+  p_run (C13_cfg false true false) (C13_doc C13_U C13_M C13_O) [RAll] =
+    [OItem (TStart 129) 0; OItem (TElem 16641 (VU 5)) 2; OErr (RInvalidTagId 6 153)] /\
+  p_run (C13_cfg false false true) (C13_doc C13_U C13_M C13_O) [RAll] =
+    [OItem (TStart 129) 0; OItem (TElem 16641 (VU 5)) 2; OErr (RInvalidTagId 6 153)] /\
+  p_run (C13_cfg true true false) (C13_doc C13_U C13_M C13_O) [RAll] =
+    [OItem (TStart 129) 0; OItem (TElem 16641 (VU 5)) 2; OItem (TElem 153 (VRaw [7])) 6; OItem (TElem 16642 (VB [9])) 9;
+     OItem (TStart 16643) 13; OErr (ROversized 16 16642 2)] /\
+  p_run (C13_cfg true true true) (C13_doc C13_U C13_M C13_O) [RAll] =
+    [OItem (TStart 129) 0; OItem (TElem 16641 (VU 5)) 2; OItem (TElem 153 (VRaw [7])) 6; OItem (TElem 16642 (VB [9])) 9;
+     OItem (TStart 16643) 13; OItem (TElem 16642 (VB [1; 2])) 16; OItem (TEnd 16643) 13; OItem (TElem 16641 (VU 6)) 21;
+     OItem (TEnd 129) 0; ONone].
+Proof. vm_compute. repeat split. Qed.
+
+(* the same three faults with M first, and with O first: the single switch for the first fault gets past exactly that fault
+   and stops at the next one; the other two single switches leave the strict run as it is *)
+Example C13_own_fault_ex :
+  (* M, O, U *)
+  p_run (C13_cfg false false false) (C13_doc C13_M C13_O C13_U) [RAll] =
+    [OItem (TStart 129) 0; OItem (TElem 16641 (VU 5)) 2; OErr (RHierarchy 16642 (Some 129))] /\
+  p_run (C13_cfg false true false) (C13_doc C13_M C13_O C13_U) [RAll] =
+    [OItem (TStart 129) 0; OItem (TElem 16641 (VU 5)) 2; OItem (TElem 16642 (VB [9])) 6; OItem (TStart 16643) 10;
+     OErr (ROversized 13 16642 2)] /\
+  p_run (C13_cfg true false false) (C13_doc C13_M C13_O C13_U) [RAll] = p_run (C13_cfg false false false) (C13_doc C13_M C13_O C13_U) [RAll] /\
+  p_run (C13_cfg false false true) (C13_doc C13_M C13_O C13_U) [RAll] = p_run (C13_cfg false false false) (C13_doc C13_M C13_O C13_U) [RAll] /\
+  (* O, U, M *)
+  p_run (C13_cfg false false false) (C13_doc C13_O C13_U C13_M) [RAll] =
+    [OItem (TStart 129) 0; OItem (TElem 16641 (VU 5)) 2; OItem (TStart 16643) 6; OErr (ROversized 9 16642 2)] /\
+  p_run (C13_cfg false false true) (C13_doc C13_O C13_U C13_M) [RAll] =
+    [OItem (TStart 129) 0; OItem (TElem 16641 (VU 5)) 2; OItem (TStart 16643) 6; OItem (TElem 16642 (VB [1; 2])) 9;
+     OItem (TEnd 16643) 6; OErr (RInvalidTagId 14 153)] /\
+  p_run (C13_cfg true false false) (C13_doc C13_O C13_U C13_M) [RAll] = p_run (C13_cfg false false false) (C13_doc C13_O C13_U C13_M) [RAll] /\
+  p_run (C13_cfg false true false) (C13_doc C13_O C13_U C13_M) [RAll] = p_run (C13_cfg false false false) (C13_doc C13_O C13_U C13_M) [RAll].
+Proof. vm_compute. repeat split. Qed.
+
+(* the documents start at a root element, so the theorem applies to them *)
+Example C13_faults_start_at_root : starts_at_root (C13_cfg false false false) (C13_doc C13_U C13_M C13_O).
+Proof. intros id len H. vm_compute in H. inversion H; subst. reflexivity. Qed.
+
+(* why the input has to start at a root element: Parent { } read from the middle of a document.  The strict reader opens
+   the implied Root around it and closes it at the end of the input; a reader tolerating hierarchy problems never opens it. *)
+Example C13_not_at_root_ex :
+  p_run (C13_cfg false false false) [65; 3; 128] [RAll] = [OItem (TStart 16643) 0; OItem (TEnd 16643) 0; OItem (TEnd 129) 0; ONone] /\
+  p_run (C13_cfg false true false) [65; 3; 128] [RAll] = [OItem (TStart 16643) 0; OItem (TEnd 16643) 0; ONone].
+Proof. vm_compute. split; reflexivity. Qed.
+
+(* why buffered masters need bytes: Root { M2 (empty); Parent (buffered) { unknown id 0x99; UInt whose size field contains the
+   non-byte 2^64 } }.  One read_next of the strict reader closes M2 and fails on the unknown id inside the buffered Parent:
+   it delivers End(M2), then the error.  The reader tolerating unknown ids goes on inside the same read_next, reaches the
+   overflow panic of the size decoder, and End(M2) is never delivered. *)
+Example C13_nonbyte_ex :
+  let sp := C13_sp ++ [ {| e_id := 16644; e_ty := DMaster; e_path := [PId 129] |} ] in
+  let mk a := {| c_sp := sp; c_allow_id := a; c_allow_hier := false; c_allow_over := false; c_max := None; c_buffered := [16643]; c_emit_eof := true |} in
+  let input := [129; 255; 65; 4; 128; 65; 3; 255; 153; 129; 7; 65; 1; 1; 0; 0; 0; 0; 0; 0; 18446744073709551616] in
+  p_run (mk false) input [RAll] = [OItem (TStart 129) 0; OItem (TStart 16644) 2; OItem (TEnd 16644) 2; OErr (RInvalidTagId 8 153)] /\
+  p_run (mk true) input [RAll] = [OItem (TStart 129) 0; OItem (TStart 16644) 2; OPanic].
 Proof. vm_compute. split; reflexivity. Qed.
